@@ -62,7 +62,7 @@ def _case(draw, size=1):
                                  st.integers(0, total + 60)))
         multi = draw(st.integers(0, 3)) == 0
         lengths = DEFAULT_VALUES if requant else None
-        notes = draw(gens.wellformed_notes(channels=(0, 1) if multi else (i,), pitches=draw(st.sampled_from([(60, 62, 64), (60, 62, 64), (21, 108), (0, 127, 60)])), max_notes=7,
+        notes = draw(gens.wellformed_notes(channels=(0, 1) if multi else (i,), pitches=draw(gens.pitch_pool([(60, 62, 64)])), max_notes=7,
                                            max_len=120, max_gap=90, start_max=max(0, dur), lengths=lengths))
         notes = [n for n in notes if n[3] <= dur]
         meta = (sig_events + key_events) if i == m else []
